@@ -83,6 +83,28 @@ ConcatGroups(k) == IF k = 0 THEN <<>> ELSE ConcatGroups(k - 1) \o Group(TypeOrde
 TypeOrderLinks == ConcatGroups(Len(TypeOrder))
 TypesScan == LET ys == [k \in 1..n |-> G(TypeOrderLinks[k])] IN [i \in 1..n |-> ys[IndexOf(TypeOrderLinks, i)]]
 
+\* ---------------------------------------------------------------- index helpers of base.System (0-based, as in the code)
+TypeSets == <<{"f"}, {"1"}, {"2"}, {"3"}, {"1", "2", "3"}, {"f", "1", "2", "3"}>>
+IndexHelpers ==
+  LET ds == [i \in 1..n |-> DStart(i)]
+      qs == [i \in 1..n |-> QStart(i)]
+      nd == ds[n] + DW(types[n])
+      nq == qs[n] + QW(types[n])
+      downer == [k \in 1..nd |-> CHOOSE i \in 1..n : ds[i] < k /\ k <= ds[i] + DW(types[i])]    \* link owning dof k
+      qowner == [k \in 1..nq |-> CHOOSE i \in 1..n : qs[i] < k /\ k <= qs[i] + QW(types[i])]
+      dep == [i \in 1..n |-> Depth(i)]
+      \* position of link i among the links of its depth, in link order
+      pos == [i \in 1..n |-> Cardinality({j \in 1..(i - 1) : dep[j] = dep[i]})]
+      Sel(owner, total, ts) ==      \* coordinates owned by links whose type is in ts, ascending
+        LET RECURSIVE S(_) S(k) == IF k = 0 THEN <<>> ELSE IF types[owner[k]] \in ts THEN Append(S(k - 1), k - 1) ELSE S(k - 1)
+        IN  S(total)
+  IN
+  [dof_link |-> [k \in 1..nd |-> downer[k] - 1],
+   dof_link_depth |-> [k \in 1..nd |-> pos[downer[k]]],
+   dof_ranges |-> [i \in 1..n |-> [j \in 1..DW(types[i]) |-> ds[i] + j - 1]],
+   q_idx |-> [c \in 1..Len(TypeSets) |-> Sel(qowner, nq, TypeSets[c])],
+   qd_idx |-> [c \in 1..Len(TypeSets) |-> Sel(downer, nd, TypeSets[c])]]
+
 \* ---------------------------------------------------------------- enumeration
 TypeSet(p) == IF p = 0 THEN {"f", "1", "2", "3"} ELSE {"1", "2", "3"}
 Init ==
@@ -104,7 +126,8 @@ Compute ==
              up   |-> Restore(ConcatLevels(LevelUp, MaxDepth)),
              bytype |-> TypesScan,
              \* a 'q'-typed output of link_types must come back in coordinate order
-             bytype_q |-> [k \in 1..NQ |-> TypeCode(types[QOwner(k)]) * AQ(k)]]
+             bytype_q |-> [k \in 1..NQ |-> TypeCode(types[QOwner(k)]) * AQ(k)],
+             idx |-> IndexHelpers]
   /\ UNCHANGED <<parents, types>>
 Next == Compute
 Spec == Init /\ [][Next]_vars
@@ -114,5 +137,14 @@ Done == phase = "done"
 GroupedEqualsNaiveDown == Done => out.down = [i \in 1..n |-> Down(i)]
 GroupedEqualsNaiveUp == Done => out.up = [i \in 1..n |-> Up(i)]
 TypesScanInLinkOrder == Done => out.bytype = [i \in 1..n |-> G(i)]
+\* the index helpers partition the coordinates: every dof belongs to exactly one type's index list, ranges tile 0..ND-1
+IndexHelpersPartition == Done =>
+  /\ LET all == out.idx.qd_idx[1] \o out.idx.qd_idx[2] \o out.idx.qd_idx[3] \o out.idx.qd_idx[4]
+     IN  Len(all) = ND /\ {all[k] : k \in 1..Len(all)} = 0..(ND - 1)
+  /\ LET all == out.idx.q_idx[1] \o out.idx.q_idx[2] \o out.idx.q_idx[3] \o out.idx.q_idx[4]
+     IN  Len(all) = NQ /\ {all[k] : k \in 1..Len(all)} = 0..(NQ - 1)
+  /\ \A i \in 1..n : \A j \in 1..DW(types[i]) : out.idx.dof_link[out.idx.dof_ranges[i][j] + 1] = i - 1
+  \* within a level the positions are 0..(size-1): dof_link(depth) is a valid segment id for that level's call
+  /\ \A k \in 1..ND : out.idx.dof_link_depth[k] < Len(Level(Depth(out.idx.dof_link[k] + 1)))
 OrderIsPermutation == {Order[k] : k \in 1..Len(Order)} = 1..n /\ Len(Order) = n
 =====================================================================================
